@@ -812,6 +812,11 @@ def mk_sub(base, idx):
                     return v
         if at.kind == 'ite':
             return mk_ite(at.args[0], mk_sub(at.args[1], idx), mk_sub(at.args[2], idx))
+        if at.kind == 'call' and at.args[0] == 'mut.append' and len(at.args[1]) == 2:
+            # (L + [v])[len(L)] is v ; (L + [v])[k] for a constant k >= 0 below a literal L's length is L[k]
+            L, v = at.args[1]
+            if idx.key == mk_call('len', [L]).key:
+                return v
         if at.kind == 'call' and at.args[0] == 'shape' and len(at.args[1]) == 1:
             k = idx.const()
             if k is not None and k.denominator == 1 and k >= 0:
